@@ -258,6 +258,77 @@ def first_use(jobs, nthreads=4):
     return bad[0] if bad else None
 
 
+def order_independence(jobs, describe=None):
+    """jobs: list of (path, args).  Two fresh copies of the package make the same calls: copy A in the given order, copy B in the
+    reverse order with every call made twice in a row.  A decoder that keeps nothing between calls gives every job the same outcome
+    in both copies and on both of B's calls - whatever it returns; no reference is involved.  A memo whose key is coarser than the
+    arguments (a rounded altitude, a prefix of the frame, 'the last input') answers a job with its neighbour's result in one of
+    the two orders.  Returns (problem or None, outcomes of copy A)."""
+    out = []
+    for order in (0, 1):
+        pkg, alias = fresh_package()
+        try:
+            fns = {}
+            res = {}
+            seq = list(enumerate(jobs))
+            if order:
+                seq.reverse()
+            prev = None
+            for i, (path, args) in seq:
+                fn = fns.get(path) or fns.setdefault(path, resolve(pkg, path))
+                for rep in range(2 if order else 1):
+                    try:
+                        got = ("ok", fn(*args))
+                    except Exception as e:  # noqa
+                        got = ("raise", type(e).__name__, str(e)[:80])
+                    if rep and not same_outcome(res[i], got):
+                        return ("%s%r -> %r, and the same call made again straight afterwards -> %r (fresh copy of the package; the call before was %s)"
+                                % (path, tuple(args), res[i], got, prev)), None
+                    res[i] = got
+                prev = "%s%r" % (path, tuple(args))
+            out.append(res)
+        finally:
+            drop_package(alias)
+    for i, (path, args) in enumerate(jobs):
+        if not same_outcome(out[0][i], out[1][i]):
+            a = "%s%r" % (jobs[i - 1][0], tuple(jobs[i - 1][1])) if i else "nothing"
+            b = "%s%r" % (jobs[i + 1][0], tuple(jobs[i + 1][1])) if i + 1 < len(jobs) else "nothing"
+            return ("%s%r -> %r when called after %s, but -> %r when called after %s (two fresh copies of the package, the same %d calls in opposite orders)"
+                    % (path, tuple(args), out[0][i], a, out[1][i], b, len(jobs))), None
+    return None, out[0]
+
+
+def scan_order_leg(make_scan, quick=48, thorough=2000, name="scan_order", doc=""):
+    """make_scan(rng) -> (label, jobs): a *neighbour scan* - calls whose arguments differ in one quantity by its smallest steps, laid
+    across a place where the right answer changes.  Judged by order_independence(); non-trivial = the scan's outcomes are not all equal."""
+    import random
+
+    from vlib.core import Leg
+
+    def enum(ctx):
+        for i in range(ctx.n):
+            if ctx.mine(i):
+                yield {"trial": i, "seed": ctx.rng("scan-order", i).getrandbits(32)}
+
+    def chk(case, note):
+        label, jobs = make_scan(random.Random(case["seed"]))
+        p, res = order_independence(jobs)
+        if p:
+            return "[%s] %s" % (label, p)
+        note.evals = len(jobs) * 3
+        note.cls("scan:" + label)
+        distinct = len(set(repr(res[i]) for i in res))
+        note.cls("scan-outcomes:%s" % ("1" if distinct == 1 else "2" if distinct == 2 else "3+"))
+        note.nt(distinct > 1, key=["scan", case["trial"], case["seed"]])
+        return None
+
+    leg = Leg(name, chk, enum=enum, quick=quick, thorough=thorough, exhaustive=False,
+              doc=doc or "neighbour scans across a decision boundary, made in opposite orders by two fresh copies of the package: every call's outcome must be the same in both")
+    leg.reeval = False
+    leg.opt = False
+    return leg
+
+
 def first_use_leg(make_jobs, quick=64, thorough=3000, doc=""):
     """make_jobs(rng) -> job list (expected values from the reference encoders/tables, never from the library)."""
     import random
